@@ -346,7 +346,7 @@ void gp_utf8_to_utf16(
         } else {
             if (GP_UNLIKELY(gp_arr_length(*u16) + 2 > gp_arr_capacity(*u16)))
                 break;
-            encoding &= ~0x10000;
+            encoding -= 0x10000;
             (*u16)[gp_arr_length(*u16) + 0] = (encoding >> 10)   | 0xD800;
             (*u16)[gp_arr_length(*u16) + 1] = (encoding & 0x3FF) | 0xDC00;
             ((GPArrayHeader*)*u16 - 1)->length += 2;
@@ -365,7 +365,7 @@ void gp_utf8_to_utf16(
         if (encoding <= UINT16_MAX) {
             (*u16)[((GPArrayHeader*)*u16 - 1)->length++] = encoding;
         } else {
-            encoding &= ~0x10000;
+            encoding -= 0x10000;
             (*u16)[gp_arr_length(*u16) + 0] = (encoding >> 10)   | 0xD800;
             (*u16)[gp_arr_length(*u16) + 1] = (encoding & 0x3FF) | 0xDC00;
             ((GPArrayHeader*)*u16 - 1)->length += 2;
@@ -385,7 +385,7 @@ static void gp_utf8_to_utf16_unsafe(
         if (encoding <= UINT16_MAX)
             (*u16)[((GPArrayHeader*)*u16 - 1)->length++] = encoding;
         else {
-            encoding &= ~0x10000;
+            encoding -= 0x10000;
             (*u16)[gp_arr_length(*u16) + 0] = (encoding >> 10)   | 0xD800;
             (*u16)[gp_arr_length(*u16) + 1] = (encoding & 0x3FF) | 0xDC00;
             ((GPArrayHeader*)*u16 - 1)->length += 2;
@@ -417,9 +417,9 @@ void gp_utf16_to_utf8(
                 (*u8)[gp_str_length(*u8) + 2].c = ((u16[i] & 0x00003F) >>  0) | 0x80;
                 ((GPStringHeader*)*u8 - 1)->length += 3;
             } else { // surrogate pair
-                const uint32_t encoding = 0x10000
-                    | ((uint32_t)(u16[i + 0] &~ 0xD800) << 10)
-                    | ((uint32_t)(u16[i + 1] &~ 0xDC00));
+                const uint32_t encoding = 0x10000 + (
+                      ((uint32_t)(u16[i + 0] &~ 0xD800) << 10)
+                    | ((uint32_t)(u16[i + 1] &~ 0xDC00)));
                 (*u8)[gp_str_length(*u8) + 0].c = ((encoding & 0x1C0000) >> 18) | 0xF0;
                 (*u8)[gp_str_length(*u8) + 1].c = ((encoding & 0x03F000) >> 12) | 0x80;
                 (*u8)[gp_str_length(*u8) + 2].c = ((encoding & 0x000FC0) >>  6) | 0x80;
@@ -463,9 +463,9 @@ void gp_utf16_to_utf8(
                 (*u8)[gp_str_length(*u8) + 2].c = ((u16[i] & 0x00003F) >>  0) | 0x80;
                 ((GPStringHeader*)*u8 - 1)->length += 3;
             } else { // surrogate pair
-                const uint32_t encoding = 0x10000
-                    | ((uint32_t)(u16[i + 0] &~ 0xD800) << 10)
-                    | ((uint32_t)(u16[i + 1] &~ 0xDC00));
+                const uint32_t encoding = 0x10000 + (
+                      ((uint32_t)(u16[i + 0] &~ 0xD800) << 10)
+                    | ((uint32_t)(u16[i + 1] &~ 0xDC00)));
                 (*u8)[gp_str_length(*u8) + 0].c = ((encoding & 0x1C0000) >> 18) | 0xF0;
                 (*u8)[gp_str_length(*u8) + 1].c = ((encoding & 0x03F000) >> 12) | 0x80;
                 (*u8)[gp_str_length(*u8) + 2].c = ((encoding & 0x000FC0) >>  6) | 0x80;
